@@ -248,7 +248,7 @@ def check_swap(groups, envs, exe, wd, res):
     while first < len(cases):
         try:
             p = subprocess.run([exe, case_file, str(first)], cwd=wd, stdout=subprocess.PIPE, stderr=subprocess.PIPE,
-                               timeout=120, env=dict(os.environ, **C.SAN_ENV))
+                               timeout=30, env=dict(os.environ, **C.SAN_ENV))
             rc, out, err = p.returncode, p.stdout.decode(errors="replace"), p.stderr.decode(errors="replace")
         except subprocess.TimeoutExpired as e:
             rc, out, err = -9, (e.stdout or b"").decode(errors="replace"), "timeout"
